@@ -53,5 +53,5 @@ def run(ctx):
     # the superseded attempt keeps running beside the current one): specs/batchdb/DriverOut.tla replayed on the real job.py wrappers
     from checks import _drivermem
 
-    steps, _nw = _drivermem.run_memory_stage(ctx, budget_quick=15)
+    steps, _nw = _drivermem.run_memory_stage(ctx, budget_quick=15, model_only_program=False)
     ctx.cov["evaluations"] += steps
